@@ -58,6 +58,19 @@ fn point_any() -> BoxedStrategy<B32> {
     edwards_point().prop_map(|(_, e)| e).boxed()
 }
 
+/// the variable point of a double-base multiplication related to the fixed base: B, -B, 2B, the identity, a torsion point
+fn point_related_to_base() -> BoxedStrategy<B32> {
+    let b = Aff::basepoint();
+    prop_oneof![
+        Just(b.compress()),
+        Just(b.neg().compress()),
+        Just(b.dbl().compress()),
+        Just(Aff::IDENTITY.compress()),
+        (1usize..8).prop_map(|t| torsion()[t].compress()),
+        (1usize..8).prop_map(|t| Aff::basepoint().add(&torsion()[t]).compress()),
+    ].boxed()
+}
+
 /// pool-based points only (cheap model even for n = 1000)
 fn point_pool() -> BoxedStrategy<B32> {
     let np = pool().pts.len();
@@ -82,6 +95,7 @@ pub fn single_strategy(tables: bool) -> BoxedStrategy<Req> {
         (4, scalar_wide().prop_map(|s| Req::new("sm.mul_base", vec![s.to_vec()])).boxed()),
         (2, (u256_interesting(), point_any()).prop_map(|(b, p)| Req::new("sm.mul_clamped", vec![b.to_vec(), p.to_vec()])).boxed()),
         (2, u256_interesting().prop_map(|b| Req::new("sm.mul_base_clamped", vec![b.to_vec()])).boxed()),
+        (1, (scalar_pair(), point_related_to_base()).prop_map(|((a, b), p)| Req::new("sm.double_base", vec![a.to_vec(), p.to_vec(), b.to_vec()])).boxed()),
         (5, (scalar_pair(), point_any()).prop_map(|((a, b), p)| Req::new("sm.double_base", vec![a.to_vec(), p.to_vec(), b.to_vec()])).boxed()),
     ];
     if tables {
@@ -120,7 +134,24 @@ pub fn msm_strategy(sizes: Vec<usize>, pool_only: bool) -> BoxedStrategy<Req> {
         (Just(variant), point_vec(n, p2()), scalar_vec(ns), scalar_vec(nd), point_vec(nd, p2()), none_bitmap(nd))
             .prop_map(|(variant, sp, ss, ds, dp, none)| Req::new("sm.precomp", vec![vec![variant], cat(&sp), cat(&ss), cat(&ds), cat(&dp), if variant >= 2 { none } else { vec![] }]))
     });
-    prop_oneof![3 => msm, 1 => pre].boxed()
+    // terms that cancel in pairs: (s, P), (s, -P), ... : the sum is the identity (or one leftover term)
+    let p3 = pts.clone();
+    let cancel = (prop::sample::select(vec![2usize, 3, 4, 8, 9, 64, 65, 190, 191]), 0u8..5).prop_flat_map(move |(n, kind)| {
+        (Just(kind), vec(scalar_for_mul(), (n + 1) / 2), vec(p3(), (n + 1) / 2)).prop_map(move |(kind, s, p)| {
+            let mut ss = vec![];
+            let mut pp = vec![];
+            for i in 0..n {
+                ss.push(s[i / 2]);
+                let mut q = p[i / 2];
+                if i % 2 == 1 {
+                    q[31] ^= 0x80;
+                }
+                pp.push(q);
+            }
+            msm_req(kind, ss, pp, vec![])
+        })
+    });
+    prop_oneof![9 => msm, 3 => pre, 1 => cancel].boxed()
 }
 
 /// chains: the un-normalised result of one multiplication is the input of the next
